@@ -4,6 +4,7 @@ import (
 	"bufio"
 	"context"
 	"encoding/json"
+	"errors"
 	"flag"
 	"fmt"
 	"os"
@@ -65,6 +66,7 @@ type Result struct {
 	Notes     []string `json:"notes"`
 	ElapsedUs int64    `json:"elapsed_us"`
 	BadJSON   string   `json:"bad_json,omitempty"`
+	Dirty     bool     `json:"dirty,omitempty"` // a panic escaped: goroutines of this operation may still be running
 }
 
 type Probe struct {
@@ -125,7 +127,7 @@ func Main(p *Probe) {
 						defer func() { <-sem }()
 						r := p.Exec(&c)
 						emit(r)
-						if r.Hung {
+						if r.Hung || r.Dirty {
 							// the process is dirty now; let the driver restart it
 							os.Exit(7)
 						}
@@ -168,6 +170,7 @@ func (p *Probe) Exec(c *Cmd) *Result {
 	if c.Introspect {
 		ex.Use(introspectOn{})
 	}
+	ex.Use(faultExt{})
 	base, cancel := context.WithCancel(WithRun(context.Background(), run))
 	run.Cancel = cancel
 	defer cancel()
@@ -180,6 +183,7 @@ func (p *Probe) Exec(c *Cmd) *Result {
 		defer func() {
 			if r := recover(); r != nil {
 				res.Notes = append(res.Notes, fmt.Sprintf("escaped panic on caller: %v", r))
+				res.Dirty = true
 			}
 		}()
 		ctx := graphql.StartOperationTrace(base)
@@ -227,6 +231,7 @@ func (p *Probe) Exec(c *Cmd) *Result {
 				res.Leaked = n
 				if n > 0 {
 					res.LeakStack = p.gqlgenStacks(3000)
+					res.Dirty = true // leaked goroutines would be seen by the next scenario
 				}
 				break
 			}
@@ -242,6 +247,54 @@ func (p *Probe) Exec(c *Cmd) *Result {
 	res.Notes = append(res.Notes, run.Notes...)
 	run.mu.Unlock()
 	return res
+}
+
+// faultExt is a field / root-field interceptor driven by the plan
+// (DirPlan keys "<path>@#f" and "<path>@#r": err | panic; default pass).
+type faultExt struct{}
+
+func (faultExt) ExtensionName() string                   { return "VerifFaults" }
+func (faultExt) Validate(graphql.ExecutableSchema) error { return nil }
+
+func (faultExt) InterceptField(ctx context.Context, next graphql.Resolver) (any, error) {
+	run := RunFrom(ctx)
+	if run == nil || len(run.DirPlan) == 0 {
+		return next(ctx)
+	}
+	path := PathKey(graphql.GetFieldContext(ctx).Path())
+	how, ok := run.DirPlan[path+"@#f"]
+	if !ok {
+		return next(ctx)
+	}
+	run.Log(Event{E: "Int", P: path, T: "#f", A: how})
+	switch how {
+	case "err":
+		return nil, errors.New("I:" + path)
+	case "panic":
+		panic("P:" + path + "@#f")
+	}
+	return next(ctx)
+}
+
+func (faultExt) InterceptRootField(ctx context.Context, next graphql.RootResolver) graphql.Marshaler {
+	run := RunFrom(ctx)
+	if run == nil || len(run.DirPlan) == 0 {
+		return next(ctx)
+	}
+	rc := graphql.GetRootFieldContext(ctx)
+	path := ""
+	if rc != nil {
+		path = rc.Field.Alias
+	}
+	how, ok := run.DirPlan[path+"@#r"]
+	if !ok {
+		return next(ctx)
+	}
+	run.Log(Event{E: "Int", P: path, T: "#r", A: how})
+	if how == "panic" {
+		panic("P:" + path + "@#r")
+	}
+	return next(ctx)
 }
 
 type introspectOn struct{}
